@@ -4004,7 +4004,7 @@ class Builder(object):
         if index == (len(tokens) - 1): #only one more token so it must be value
             value = tokens[index]
             if value in Reserved:  # ending token not valid value
-                msg = "ParseError: Encountered reserved '{0}' instead of value." % (value)
+                msg = "ParseError: Encountered reserved '{0}' instead of value.".format(value)
                 raise excepting.ParseError(msg, tokens, index)
             index +=1 #eat token
             field = 'value' #default field
@@ -4012,7 +4012,7 @@ class Builder(object):
         else: #more than one so first may be field and second token may be value
             field = tokens[index]
             if field in Reserved:  # ending token not valid field
-                msg = "ParseError: Encountered reserved '{0}' instead of field." % (field)
+                msg = "ParseError: Encountered reserved '{0}' instead of field.".format(field)
                 raise excepting.ParseError(msg, tokens, index)
             index += 1
             value = tokens[index]
@@ -4036,7 +4036,7 @@ class Builder(object):
 
             value = tokens[index]
             if value in Reserved:  # ending token before valid value
-                msg = "ParseError: Encountered reserved '{0}' instead of value." % (value)
+                msg = "ParseError: Encountered reserved '{0}' instead of value.".format(value)
                 raise excepting.ParseError(msg, tokens, index)
             index += 1
             data[field] = Convert2StrBoolPathCoordPointNum(value) #convert to BoolNumStr, load data
